@@ -589,7 +589,12 @@ def _bounded_parse(tier, seed):
 
 
 def build_cases(tier="quick"):
-    return encode_tuple_cases() + encode_cases() + dyn_sizes_cases() + create_cases()
+    # every configured length candidate is explored, and a path that runs with a concrete length constrains the length
+    # word accordingly (the calldataload contract of the C02 pack)
+    from contracts import c02
+
+    ref = [Case(f"{PROP}/sevm.SEVM.calldataload", c.case, c.harness, replay=c.replay, sources=c.sources) for c in c02.calldataload_cases()]
+    return encode_tuple_cases() + encode_cases() + dyn_sizes_cases() + create_cases() + ref
 
 
 def bounded():
